@@ -120,6 +120,9 @@ def program_value(v, colname: str) -> dict:
     ]
     if v is not None:
         cols += [["const", lit], ["eq_rev", {"fn": "equal", "args": [lit, x]}]]
+        # the fill value of `shift` is a literal position too (falsy values - 0, 0.0, False, "" - included)
+        cols += [["sh", {"fn": "shift", "args": [x, {"lit": 1}, lit], "arrange": [{"col": ["t0", "id"]}]}],
+                 ["sh_back", {"fn": "shift", "args": [x, {"lit": -2}, lit], "arrange": [{"col": ["t0", "id"]}]}]]
         if not isinstance(v, bool):
             cols += [["lt", {"fn": "less_than", "args": [x, lit]}], ["sum", {"fn": "add", "args": [x, lit]}], ["diff", {"fn": "sub", "args": [x, lit]}],
                      ["prod", {"fn": "mul", "args": [lit, x]}], ["neg", {"fn": "neg", "args": [{"fn": "add", "args": [x, lit]}]}],
@@ -138,7 +141,8 @@ def program_value(v, colname: str) -> dict:
                dict(id="t3", op="arrange", src="t2", by=[{"c": "id"}]), dict(id="x", op="export", src="t3", ordered=True)])
 
 
-VALUE_CASES = [(None, "s"), (None, "i"), (None, "b"), (True, "b"), (False, "b"), (-3, "i"), (0, "i"), (-2.5, "f"), (-3, "f"), (0.0, "f")]
+VALUE_CASES = [(None, "s"), (None, "i"), (None, "b"), (True, "b"), (False, "b"), (-3, "i"), (0, "i"), (-2.5, "f"), (-3, "f"), (0.0, "f"),
+               ("", "s"), ("a'b", "s"), ("%", "s")]
 
 
 def program_value_key(v, colname: str) -> dict:
